@@ -204,9 +204,15 @@ def check_case(run, case):
             if case.get('multiword'):
                 open(tf + '.mw', 'wb').write(''.join(w + case['eol'] for w in case['multiword']).encode(enc))
                 extra = ['--multiword', tf + '.mw']
+            # half of the CLI trainings run with a standard output that cannot represent the passwords (the trainer prints progress and statistics there)
+            oenc = rng.choice(['utf-8', 'ascii', 'ascii', 'latin-1'])
             out, err, rc, to = cli.run_cli('trainer.py', ['-r', nm, '-t', tf, '-e', enc, '--prefixcount', '-c', str(case['coverage']), '-n', str(case['ngram']),
-                                                           '-a', str(case['alphabet'])] + extra, stdin_mode='devnull')
+                                                           '-a', str(case['alphabet'])] + extra, stdin_mode='devnull', env={'PYTHONIOENCODING': oenc})
             run.ev('trainer_cli_runs')
+            if oenc != 'utf-8':
+                run.ev('trainer_cli_runs_with_a_narrow_stdout')
+                if os.path.exists(os.path.join(sdir, 'Rules', nm, 'Grammar', 'grammar.txt')):
+                    run.ev('narrow_stdout_trainings_completed')
             p = os.path.join(sdir, 'Rules', nm)
             if not to and os.path.exists(os.path.join(p, 'Grammar', 'grammar.txt')):
                 d = digest(p)
